@@ -252,6 +252,17 @@ func init() {
 	// process bounded, and do not spread one shard over every core (the driver runs the shards in parallel).
 	debug.SetGCPercent(800)
 	debug.SetMemoryLimit(2 << 30)
+	// every publishing case creates the hls directory and two recordings; on a loaded machine the disk is the slow
+	// part of those cases.  Scratch directories go to tmpfs when there is one (removed per case), as in C05.
+	if os.Getenv("VERIF_SCRATCH") == "" {
+		if st, err := os.Stat("/dev/shm"); err == nil && st.IsDir() {
+			if f, err := os.CreateTemp("/dev/shm", "c04probe"); err == nil {
+				_ = f.Close()
+				_ = os.Remove(f.Name())
+				_ = os.Setenv("VERIF_SCRATCH", "/dev/shm")
+			}
+		}
+	}
 	limit := 4
 	if os.Getenv("VERIF_FUZZING") != "" {
 		limit = 8 // the fuzzing engine starts GOMAXPROCS workers
@@ -1207,7 +1218,7 @@ func TestHostileRtmpPeer(t *testing.T) {
 	budget := searchBudget()
 	pbt.Run(t, pbt.Spec[Case]{
 		ID: "C04", Name: "hostile-rtmp-peer", Gen: genCase, Run: run, Classify: classify, Isolate: true,
-		Quick: 900, Thorough: 5000,
+		Quick: 1500, Thorough: 15000,
 		Exclude: func(Case) string {
 			if budget > 0 && time.Since(startTime) > budget {
 				return "time-budget-exhausted"
